@@ -116,7 +116,7 @@ CHECKS.update({
 CHECKS.update({
     "C16": dict(
         technique="TLA+ byte-level spec of TLVStruct encode/decode (spec/codec/TlvStruct*.tla) model-checked by TLC on generic schemas (FRAG=3 exhaustive, FRAG=255 boundary sizes) and on the schemas of all real classes derived by reflection; TLC-exported cases replayed on the real classes, recorded runs validated by TlvStruct_Trace",
-        text="TLC checks StructRoundTrip/Canonical/OnBoundary for every field kind, 3 nesting levels, lists and packed id lists. For all 26 reflected message classes a covering family (each field alone over 1/254/255/256/510/511 and every enum member, neighbour pairs, all-set, nested encodings swept across the 255/510 boundaries, lists crossing a fragment, ids 0..6) is replayed: encode() must equal the prescribed bytes, decode() must return the value, for library-made and accessory-made messages. Random values, every byte value in linked-service lists and 1..3x1..3x1..3 accessory databases are recorded and accepted by TLC. Known finding (listed): packed Sequence[u16] id lists.",
+        text="TLC checks StructRoundTrip/Canonical/OnBoundary for every field kind, 3 nesting levels, lists and packed id lists. For all 26 reflected message classes a covering family (each field alone over 1/254/255/256/510/511 and every enum member, neighbour pairs, all-set, nested encodings swept across the 255/510 boundaries, lists crossing a fragment, ids 0..6) is replayed: encode() must equal the prescribed bytes, decode() must return the value, for library-made and accessory-made messages. Random values, every byte value in linked-service lists and 1..3x1..3x1..3 accessory databases are recorded and accepted by TLC. TLC also checks DecodeIsFunctionOfBytes on a heap model of decode histories (spec/codec/TlvStructHist.tla) and refutes memoised decode; every exported case is decoded again after the first result was overwritten, with a per-node write/read-back; get_accessory_info on bridge databases with byte-identical accessories and Characteristic.value read-edit-read are validated against TlvStructHist_Trace. Known finding (listed): packed Sequence[u16] id lists.",
         note="Schemas come from the code's own annotations, so a wrong tag is not detected. Float fields are not encodable and are left unset. Empty encode-side values are excluded (DESIGN 4.2). Trusted: TLC, the independent encoder in harness/c16_schema.py plus refacc/tlv.py. Little-endian host.",
         ref="5/C16"),
     "C17": dict(
